@@ -25,8 +25,11 @@ def obligations(tier, seed):
         for L in (((1, 3)[(k + seed) % 2],) if tier == 'quick' else (1, 2, 3)):
             cs = [combos[(k // 2 + seed) % 4]] if tier == 'quick' else combos
             for (rl, rg) in cs:
-                shards.append(['k == %d' % k, 'len(A) == %d and len(B) == %d and len(C) == %d' % (L, L, L),
-                               '"." not in A and "." not in B and "." not in C', 'rl == %s' % rl, 'rg == %s' % rg])
+                pre = ['k == %d' % k, 'len(A) == %d and len(B) == %d and len(C) == %d' % (L, L, L),
+                       '"." not in A and "." not in B and "." not in C', 'rl == %s' % rl, 'rg == %s' % rg]
+                if tier == 'quick' and skeletons.HOIST_TEMPLATES[k][0] in ('one_true_float', 'none_true_bytes'):
+                    pre.append('B == %r' % ('b' * L))     # many hoisted values: pin one hole in the quick tier
+                shards.append(pre)
     return [
         dict(name='C06.hoist_ok', fn='hoist_ok', shards=shards, timeout=t, bounds='see META', public_replay='public_hoist_ok'),
         dict(name='C06.hoist.twin', fn='hoist_twin', shards=[['k == 1', 'len(A) == 3 and len(B) == 3 and len(C) == 3']], timeout=t,
